@@ -58,11 +58,11 @@ def program(draw, nmax=8, kinds=('call', 'await', 'map', 'amap', 'wait'), immedi
         n = draw(st.integers(0, 3))
         xs = fresh(n)
         if k == 'map':
-            kind = draw(st.sampled_from(['list', 'tuple', 'range'] if immediate_only else
+            kind = draw(st.sampled_from(['list', 'tuple', 'range', 'iter', 'gen'] if immediate_only else
                                         ['list', 'range', 'gen', 'iter', 'gen', 'reiter', 'iter-badclose']))
             fail_at = None
             delay = 0
-            if kind in ('gen', 'iter', 'reiter', 'iter-badclose'):
+            if kind in ('gen', 'iter', 'reiter', 'iter-badclose') and not immediate_only:
                 fail_at = draw(st.sampled_from([None, None] + list(range(n + 1))))
                 delay = draw(st.sampled_from([0, 0, U, T / 2]))
             return {'at': t, 'op': 'map', 'kind': kind, 'xs': xs, 'fail_at': fail_at, 'delay': delay}
